@@ -204,7 +204,7 @@ func (g *Gen) SE() (string, []byte) {
 		return vfutil.Pick(g.R, opts) + ":" + strconv.FormatInt(v, 10), s
 	case 2: // LZF
 		ops, val := g.lzfOps()
-		return "z" + g.lenForm(0) + g.lenForm(len(val)) + ":" + ops, val
+		return "z" + vfutil.Pick(g.R, []string{"a", "a", "a", "2", "3"}) + g.lenForm(len(val)) + ":" + ops, val
 	default:
 		s := g.bytesVal(90)
 		if g.R.Chance(1, 40) {
@@ -236,11 +236,13 @@ func (g *Gen) Key() (string, []byte) {
 	}
 }
 
+// wrap picks how a blob is saved: raw (the blob's size is not known here, so
+// only the minimal form or the always-fitting 32/64-bit forms) or LZF.
 func (g *Gen) wrap() string {
 	if g.R.Chance(1, 3) {
 		return "wz"
 	}
-	return "w" + g.lenForm(0)
+	return "w" + vfutil.Pick(g.R, []string{"a", "a", "a", "a", "2", "3"})
 }
 
 // ---------------------------------------------------------------- ziplist / listpack entries
@@ -323,9 +325,7 @@ func (g *Gen) lpEntry() (string, []byte) {
 
 func (g *Gen) count() int {
 	switch g.R.Intn(8) {
-	case 0:
-		return 0
-	case 1:
+	case 0, 1:
 		return 1
 	case 2:
 		return g.R.Range(60, 70)
@@ -389,7 +389,7 @@ func (g *Gen) LP(n int, distinctEvery int) (string, [][]byte) {
 // ---------------------------------------------------------------- objects
 
 var AllKinds = []string{"str", "list", "lzl", "ql", "ql2", "set", "iset", "slp", "zs1", "zs2", "zzl", "zlp",
-	"hash", "hzm", "hzl", "hlp"}
+	"hash", "hzm", "hzl", "hlp", "stream"}
 
 func (g *Gen) Obj() (string, *Val, string) {
 	kinds := g.Kinds
@@ -419,7 +419,7 @@ func (g *Gen) ObjKind(kind string) (string, *Val, string) {
 		zt, vals := g.ZL(g.count(), 0)
 		return "lzl " + g.wrap() + " " + zt, &Val{Kind: "list", List: vals}, kind
 	case "ql":
-		n := g.R.Intn(4)
+		n := g.R.Range(1, 3)
 		v := &Val{Kind: "list"}
 		toks := []string{"ql", g.lenForm(n), strconv.Itoa(n)}
 		for i := 0; i < n; i++ {
@@ -429,7 +429,7 @@ func (g *Gen) ObjKind(kind string) (string, *Val, string) {
 		}
 		return strings.Join(toks, " "), v, kind
 	case "ql2":
-		n := g.R.Intn(4)
+		n := g.R.Range(1, 3)
 		v := &Val{Kind: "list"}
 		toks := []string{"ql2", g.lenForm(n), strconv.Itoa(n)}
 		for i := 0; i < n; i++ {
@@ -559,7 +559,7 @@ func (g *Gen) ObjKind(kind string) (string, *Val, string) {
 		}
 		return strings.Join(toks, " "), v, kind
 	case "hzm":
-		n := g.R.Intn(6)
+		n := g.R.Range(1, 6)
 		v := &Val{Kind: "hash"}
 		toks := []string{"hzm", g.wrap(), strconv.Itoa(n)}
 		seen := map[string]bool{}
@@ -574,6 +574,8 @@ func (g *Gen) ObjKind(kind string) (string, *Val, string) {
 			v.Hash = append(v.Hash, HField{f, val})
 		}
 		return strings.Join(toks, " "), v, kind
+	case "stream":
+		return g.Stream()
 	}
 	panic("unknown kind " + kind)
 }
